@@ -14,8 +14,17 @@
 //                                   P <tag> <num_roots> <hex type of x> <hex type of each REACHABLE direct holder>...
 //                                 (holder = a box, reachable from a rooted box, whose real `mark` reaches x and not
 //                                 through another box strictly below it); `P <tag> gone` if x is no longer in the heap
+//                                 followed, per direct holder, by  H <tag> <hex type of the holder> <its num_roots> <hex type of
+//                                 each of ITS reachable direct holders>...
 //       Everything else is printed as usual (`O` records).  One more snapshot is taken after the program
 //       has ended while the Vm is still alive when opts contains `snap_end=1`.
+//
+//   c01seq <opts> <reset|keep> <hex global name> <hexsrc1> <hexsrc2> [<name>=<hexsrc>...]
+//       two snippets on ONE Vm.  mode `reset`: after the first snippet the host takes the value of global <name> of
+//       module "main", holds a Root for it, calls Vm::reset() (drops every module but "main", every non-core chunk
+//       root, all globals), stores the value back as global <name> and runs the second snippet: a host-held value that
+//       survives a reset.  mode `keep`: no reset (a run that failed, then a second run on the same Vm).
+use std::any::Any;
 use std::cell::RefCell;
 use std::collections::HashMap;
 
@@ -133,19 +142,32 @@ fn premise() {
                 continue;
             }
         };
+        let holders_of = |x: usize| -> Vec<usize> {
+            (0..n)
+                .filter(|&p| {
+                    p != x
+                        && reachable[p]
+                        && marks[p].contains(&x)
+                        && !marks[p]
+                            .iter()
+                            .any(|&q| q != x && q != p && marks[q].contains(&x) && !marks[q].contains(&p))
+                })
+                .collect()
+        };
         let mut line = format!("P {} {} {}", ti, snap[x].num_roots, crate::hex(snap[x].kind.as_bytes()));
-        for p in 0..n {
-            if p == x || !reachable[p] || !marks[p].contains(&x) {
-                continue;
-            }
-            let through_lower = marks[p]
-                .iter()
-                .any(|&q| q != x && q != p && marks[q].contains(&x) && !marks[q].contains(&p));
-            if !through_lower {
-                line.push_str(&format!(" {}", crate::hex(snap[p].kind.as_bytes())));
-            }
+        let hs = holders_of(x);
+        for &p in hs.iter() {
+            line.push_str(&format!(" {}", crate::hex(snap[p].kind.as_bytes())));
         }
         RECS.with(|r| r.borrow_mut().push(line));
+        // one level up: who holds the holders (H <tag> <type of holder> <its num_roots> <types of ITS holders>...)
+        for &p in hs.iter() {
+            let mut l2 = format!("H {} {} {}", ti, crate::hex(snap[p].kind.as_bytes()), snap[p].num_roots);
+            for q in holders_of(p) {
+                l2.push_str(&format!(" {}", crate::hex(snap[q].kind.as_bytes())));
+            }
+            RECS.with(|r| r.borrow_mut().push(l2));
+        }
     }
 }
 
@@ -237,10 +259,85 @@ fn cmd_c01run(args: &[&str], out: &mut Vec<String>) {
     }
 }
 
+fn host_root(v: &Value) -> Option<Box<dyn Any>> {
+    macro_rules! r {
+        ($g:expr) => {
+            Some(Box::new($g.as_root()) as Box<dyn Any>)
+        };
+    }
+    match v {
+        Value::ObjClosure(g) => r!(g),
+        Value::ObjClass(g) => r!(g),
+        Value::ObjInstance(g) => r!(g),
+        Value::ObjVec(g) => r!(g),
+        Value::ObjTuple(g) => r!(g),
+        Value::ObjHashMap(g) => r!(g),
+        Value::ObjFiber(g) => r!(g),
+        Value::ObjModule(g) => r!(g),
+        Value::ObjBoundMethod(g) => r!(g),
+        Value::ObjBoundNative(g) => r!(g),
+        Value::ObjVecIter(g) => r!(g),
+        Value::ObjRangeIter(g) => r!(g),
+        _ => None,
+    }
+}
+
+fn cmd_c01seq(args: &[&str], out: &mut Vec<String>) {
+    let o = crate::parse_opts(args[0]);
+    let do_reset = args[1] == "reset";
+    let name = crate::unhex_str(args[2]);
+    let src1 = crate::unhex_str(args[3]);
+    let src2 = crate::unhex_str(args[4]);
+    crate::MODULES.with(|m| {
+        let mut m = m.borrow_mut();
+        m.clear();
+        for a in &args[5..] {
+            let mut it = a.splitn(2, '=');
+            let name = crate::unhex_str(it.next().unwrap());
+            let src = crate::unhex_str(it.next().unwrap_or("-"));
+            m.insert(name, src);
+        }
+    });
+    RECS.with(|r| r.borrow_mut().clear());
+    TAGS.with(|t| t.borrow_mut().clear());
+    NSNAP.with(|n| *n.borrow_mut() = 0);
+    gcv::set_deref_check(Some(crate::deref_check));
+    let mut vm = crate::new_vm();
+    vm.set_printer(c01_print);
+    crate::setup(&o);
+    gcv::take_alloc_log();
+    let r1 = vm::interpret(&mut vm, src1, None);
+    crate::emit_result(out, &r1);
+    out.push("SNIP 1".to_owned());
+    let mut _held: Option<Box<dyn Any>> = None;
+    if do_reset {
+        let v = vm.global("main", &name);
+        if let Some(v) = v {
+            _held = host_root(&v);
+            vm.reset();
+            vm.set_printer(c01_print);
+            vm.set_global("main", &name, v);
+            out.push(format!("KEPT {}", if _held.is_some() { 1 } else { 0 }));
+        } else {
+            vm.reset();
+            vm.set_printer(c01_print);
+            out.push("KEPT -".to_owned());
+        }
+    }
+    let r2 = vm::interpret(&mut vm, src2, None);
+    crate::emit_result(out, &r2);
+    out.append(&mut RECS.with(|r| std::mem::take(&mut *r.borrow_mut())));
+    crate::emit_stats(out, &o);
+}
+
 pub fn dispatch(cmd: &str, args: &[&str], out: &mut Vec<String>) -> bool {
     match cmd {
         "c01run" => {
             cmd_c01run(args, out);
+            true
+        }
+        "c01seq" => {
+            cmd_c01seq(args, out);
             true
         }
         _ => false,
